@@ -5,6 +5,7 @@ go 1.23.0
 require (
 	github.com/btcsuite/btcd/btcec/v2 v2.3.4
 	github.com/high-moctane/mocrelay v0.0.0
+	github.com/mattn/go-sqlite3 v1.14.27
 	github.com/prometheus/client_golang v1.22.0
 	pgregory.net/rapid v1.3.0
 )
@@ -16,10 +17,12 @@ require (
 	github.com/coder/websocket v1.8.13 // indirect
 	github.com/decred/dcrd/crypto/blake256 v1.0.0 // indirect
 	github.com/decred/dcrd/dcrec/secp256k1/v4 v4.0.1 // indirect
+	github.com/doug-martin/goqu/v9 v9.19.0 // indirect
 	github.com/google/uuid v1.6.0 // indirect
 	github.com/hashicorp/golang-lru/v2 v2.0.7 // indirect
 	github.com/igrmk/treemap/v2 v2.0.1 // indirect
 	github.com/munnerz/goautoneg v0.0.0-20191010083416-a7dc8b61c822 // indirect
+	github.com/pierrec/xxHash v0.1.5 // indirect
 	github.com/prometheus/client_model v0.6.1 // indirect
 	github.com/prometheus/common v0.62.0 // indirect
 	github.com/prometheus/procfs v0.15.1 // indirect
